@@ -24,6 +24,7 @@ class QueryBuilder:
         self.flats = {}
         self.sel_exprs = []
         self.query = None
+        self.domlists = []
 
     # -- variables -------------------------------------------------------
     def var(self, i):
@@ -31,6 +32,7 @@ class QueryBuilder:
         if key not in self.vars:
             v = self.q["vars"][i - 1]
             dom = [self.heap[o - 1] for o in v["dom"]]
+            self.domlists.append(dom)
             decl = v.get("decl", "let")
             cls = world.CLASSES[v["cls"]]
             if decl == "let":
